@@ -20,7 +20,6 @@ import (
 	"os"
 	"runtime"
 	"sort"
-	"strings"
 	"sync"
 	"sync/atomic"
 	"time"
@@ -29,6 +28,7 @@ import (
 	"github.com/gopacket/gopacket/layers"
 	"github.com/gopacket/gopacket/reassembly"
 	"verif/harness/asmc"
+	"verif/harness/implcmp"
 	"verif/harness/vh"
 )
 
@@ -237,66 +237,6 @@ func (h *harness) step(i int, op asmc.Op) {
 	}
 }
 
-// canonical rendering of an event for the equality comparison (scale = 1 for observed events in bytes,
-// scale = S for predicted events in model units)
-func scaleRuns(v interface{}, s int) string {
-	var parts []string
-	if arr, ok := v.([]interface{}); ok {
-		for _, r := range arr {
-			rr := r.([]interface{})
-			parts = append(parts, fmt.Sprintf("%d-%d", int(rr[0].(float64))*s, int(rr[1].(float64))*s))
-		}
-	} else if arr, ok := v.([][2]int); ok {
-		for _, r := range arr {
-			parts = append(parts, fmt.Sprintf("%d-%d", r[0]*s, r[1]*s))
-		}
-	}
-	return strings.Join(parts, ",")
-}
-
-func num(v interface{}) int {
-	switch x := v.(type) {
-	case float64:
-		return int(x)
-	case int:
-		return x
-	case int64:
-		return int(x)
-	}
-	return -999999
-}
-
-func pos(v interface{}, s int) int { // lengths and offsets scale, the markers -1 do not
-	n := num(v)
-	if n > 0 {
-		return n * s
-	}
-	return n
-}
-
-func canon(e vh.M, s int) string {
-	switch e["op"] {
-	case "new":
-		return "new"
-	case "seg":
-		return fmt.Sprintf("seg d=%d lo=%d hi=%d syn=%v fin=%v rst=%v force=%v ts=%d", num(e["d"]), pos(e["lo"], s), pos(e["hi"], s),
-			e["syn"], e["fin"], e["rst"], e["force"], num(e["ts"]))
-	case "sg":
-		return fmt.Sprintf("sg d=%d saved=[%s] new=[%s] skip=%d start=%v end=%v keep=%d total=%d", num(e["d"]), scaleRuns(e["srun"], s),
-			scaleRuns(e["nrun"], s), pos(e["skip"], s), e["start"], e["end"], pos(e["keep"], s), pos(e["total"], s))
-	case "complete":
-		return fmt.Sprintf("complete remove=%v", e["remove"])
-	case "flushb", "flushe":
-		return fmt.Sprintf("%s kind=%v t=%d", e["op"], e["kind"], num(e["t"]))
-	case "api":
-		return fmt.Sprintf("api %v t=%d pages=%d conns=%d maxq=%d oldest=%d pktpages=%d", e["call"], num(e["t"]), num(e["pages"]),
-			num(e["conns"]), num(e["maxq"]), num(e["oldest"]), num(e["pktpages"]))
-	case "panic":
-		return "panic"
-	}
-	return fmt.Sprintf("?%v", e["op"])
-}
-
 var progress atomic.Int64
 
 func watchdog(tr *vh.Trace) {
@@ -318,19 +258,9 @@ func watchdog(tr *vh.Trace) {
 	}
 }
 
-type driftRec struct {
-	Sc        int      `json:"sc"`
-	Cfg       mcfg     `json:"cfg"`
-	Ops       string   `json:"ops"`
-	OpIndex   int      `json:"op_index"`
-	Kind      string   `json:"kind"` // which class of event differs first
-	Predicted []string `json:"predicted"`
-	Observed  []string `json:"observed"`
-}
-
 type result struct {
 	events                           []vh.M
-	drift                            *driftRec
+	drift                            *implcmp.Drift
 	ncmp, nsg, nskip, nsaved, npanic int
 }
 
@@ -365,7 +295,7 @@ func runBehaviour(sc int, line []byte, M, S, units int) (r result) {
 		for _, e := range h.obs {
 			if e["op"] == "sg" {
 				r.nsg++
-				if num(e["skip"]) > 0 {
+				if implcmp.Num(e["skip"]) > 0 {
 					r.nskip++
 				}
 				if rr, ok := e["srun"].([][2]int); ok && len(rr) > 0 {
@@ -378,23 +308,10 @@ func runBehaviour(sc int, line []byte, M, S, units int) (r result) {
 			if i < len(b.Pred) {
 				pe = b.Pred[i]
 			}
-			var ps, os_ []string
-			for _, e := range pe {
-				ps = append(ps, canon(e, S))
-			}
-			for _, e := range h.obs {
-				os_ = append(os_, canon(e, 1))
-			}
+			ps, os_, kind, same := implcmp.Compare(pe, h.obs, S)
 			r.ncmp += len(os_)
-			if strings.Join(ps, "|") != strings.Join(os_, "|") {
-				kind := "length"
-				for j := 0; j < len(ps) && j < len(os_); j++ {
-					if ps[j] != os_[j] {
-						kind = strings.SplitN(os_[j], " ", 2)[0]
-						break
-					}
-				}
-				r.drift = &driftRec{Sc: sc, Cfg: b.Cfg, Ops: string(b.Ops), OpIndex: i, Kind: kind, Predicted: ps, Observed: os_}
+			if !same {
+				r.drift = &implcmp.Drift{Sc: sc, Cfg: b.Cfg, Ops: string(b.Ops), OpIndex: i, Kind: kind, Predicted: ps, Observed: os_}
 			}
 		}
 		if p {
@@ -402,7 +319,7 @@ func runBehaviour(sc int, line []byte, M, S, units int) (r result) {
 		}
 	}
 	if b.Pred != nil && r.drift == nil && len(b.Pred) > len(ops) {
-		r.drift = &driftRec{Sc: sc, Cfg: b.Cfg, Ops: string(b.Ops), OpIndex: len(ops), Kind: "length"}
+		r.drift = &implcmp.Drift{Sc: sc, Cfg: b.Cfg, Ops: string(b.Ops), OpIndex: len(ops), Kind: "length"}
 	}
 	r.events = h.all
 	return r
@@ -423,6 +340,7 @@ func main() {
 	}
 	S := pageBytes / *P
 	tr := vh.NewTrace(*out)
+	progress.Store(1)
 	go watchdog(tr)
 	f, err := os.Open(*in)
 	if err != nil {
